@@ -96,3 +96,10 @@ const char *rt_fam (const Fmt *f)
 	snprintf (o, 48, "%s/%s", major_name (f->format), sub_name (f->format)) ;
 	return o ;
 }
+
+void rt_dump_log (SNDFILE *sf)
+{	static char buf [16384] ;
+	if (! vl_replaying ()) return ;
+	sf_command (sf, SFC_GET_LOG_INFO, buf, sizeof (buf)) ;
+	printf ("---- log ----\n%s\n-------------\n", buf) ;
+}
